@@ -80,6 +80,45 @@ def run(ctx):
                       '%s reads %s outside the rw_lock region: the table can be resized between this read and the lock, and the bucket index / head derived from it is stale' % (name, l.e.s),
                       note='%s: %s read under rw_lock' % (name, l.e.n))
 
+    # ---- (g) chain walks with a trailing pointer: each walk of a bucket chain starts with the trailing pointer reset, in the
+    #          same loop iteration - a predecessor left over from the previous (younger) table makes the unlink patch the wrong chain
+    from rules import gencommon as gcm
+    rg = ctx.rule('R32.g', 'bucket-chain walks: the trailing (predecessor) pointer is reset where each chain walk starts', floor=2)
+    for name, g in sorted(u.funcs().items()):
+        if not g.file.endswith('parsec_hash_table.c'):
+            continue
+        preds = {s_.lhs.ch[0].s for s_ in g.stores() if s_.lhs.k == 'mem' and s_.lhs.n == 'next_item' and s_.lhs.ch[0].k == 'ref'}
+        # trailing pointers: locals that are also assigned from the walking pointer
+        starts = [s_ for s_ in g.stores() if s_.lhs.k == 'ref' and s_.rhs is not None and s_.rhs.k == 'mem' and s_.rhs.n == 'first_item']
+        if not preds or not starts:
+            continue
+        par = gcm.parent_map(g)
+        def loops(nid):
+            out = []
+            for a in gcm.ancestors(par, nid):
+                nd = g.nodes[a]
+                if nd['k'] not in ('for', 'while', 'do'):
+                    continue
+                # a statement in the init clause of a for loop runs once, before the loop: it is not inside it
+                if nd['k'] == 'for' and nd.get('init', -1) >= 0 and nid in set(g.ast_walk(nd['init'])):
+                    continue
+                out.append(a)
+            return out
+        for pvar in sorted(preds):
+            trail = [s_ for s_ in g.stores(pvar) if s_.rhs is not None and s_.rhs.k == 'ref' and any(st.lhs.s == s_.rhs.s for st in starts)]
+            if not trail:
+                continue        # not a trailing pointer of a chain walk
+            ctx.functions_analysed.add(name)
+            for st in starts:
+                if not any(t.rhs.s == st.lhs.s for t in trail):
+                    continue
+                if not loops(st.nid) :
+                    continue    # a single walk: the declaration initialiser is enough (checked below)
+                resets = [r for r in g.stores(pvar) if r.rhs is not None and r.rhs.cv == 0 and g.dominates(r.point, st.point) and loops(r.nid)[:len(loops(st.nid))] == loops(st.nid)]
+                rg.expect(bool(resets), 'walk-reset:%s:%s' % (name, pvar), st.loc,
+                          '%s starts walking a bucket chain (%s) inside a loop over the tables without resetting its trailing pointer %s in that iteration: the predecessor of the previous table is used to unlink in this one (the item stays findable, its successors hang off two chains)'
+                          % (name, st.e.s if st.e is not None else st.lhs.s, pvar), note='%s: %s reset where the walk of each chain starts' % (name, pvar))
+
     # ---- (b)
     writers = {}
     for g in u.funcs().values():
